@@ -7,9 +7,9 @@ use crate::refmodel::Strat;
 use crate::report::Report;
 use serde_json::{json, Value};
 
-pub const BAD_PATHS: [&str; 26] = [
+pub const BAD_PATHS: [&str; 34] = [
     "a", "", "$", "$a", "a.b", " $.a", "$.zz", "$.a[7]", "$.a[0", "$.a]", "$.a[00]", "$.a[0]b", "$.a..b", "$.a.", "$.[0]", "$..a", "$.a[-1]", "$.a[ 0]",
-    "$.iss", "$.exp", "$.", "$..", "$.[", "$.]", "$.a.a.a.a.a.a", "$.b[0][0][0]",
+    "$.iss", "$.exp", "$.a[+0]", "$.a[01]", "$.a[0x0]", "$.a[0 ]", "$.a[\u{660}]", "$.a[0][+0]", "$.b[-0]", "$.a[1e0]", "$.", "$..", "$.[", "$.]", "$.a.a.a.a.a.a", "$.b[0][0][0]",
 ];
 
 fn cfgs8() -> Vec<Cfg> {
